@@ -43,6 +43,7 @@ def job(j):
             seq = all_fields if fl["seq"] == "ALL" else fl["seq"]
             c = dict(case)
             c["seq"], c["lconc"] = seq, fl["lconc"]
+            c["argsync"] = rng.random() < 0.5
             g = execreplay.GatedRun(w, c, execreplay.engine_cfg_for(c))
             g.start()
             init = sorted(map(list, g.pending()))
